@@ -1009,6 +1009,10 @@ class AliasInliner:
                     ok = False
                     break
                 pu = path[id(su)]
+                # a `with` body is a critical section (`with tree:`): a heap read must not be moved into it
+                if (rhs_attrs or has_sub) and any(arm == "With.body" and not any(o2 == o for o2, _a2, _i2 in pd) for o, arm, _i in pu):
+                    ok = False
+                    break
                 for w in writes:
                     if w is None or id(w) not in path:
                         ok = False
